@@ -20,8 +20,8 @@ var propC02 = &simProp{
 	Classify: func(res *sim.Result, f *histFacts) (bool, []string) {
 		cands := map[uint64]map[string]bool{}
 		restartedBetween := false
-		lastRVTerm := map[string]uint64{}    // voter -> term of last real RV handled
-		restartSince := map[string]bool{}    // voter restarted since that RV
+		lastRVTerm := map[string]uint64{} // voter -> term of last real RV handled
+		restartSince := map[string]bool{} // voter restarted since that RV
 		backToFollower := false
 		lastState := map[string]sim.StatusInfo{}
 		for i := range res.History {
